@@ -32,10 +32,10 @@ class Leaf(Component):
   def construct(s, T, k, inc=1, tag=None, opt=0):
     s.i = InPort(T); s.o = OutPort(T)
     s.r = Wire(T)
-    K = int(k) & 3
+    s.kk = int(k) & 3          # a constant read through an attribute of the component (extracted per instance)
     INC = int(inc) & 3
     @update
-    def up(): s.o @= (s.i + s.r + K) ^ INC
+    def up(): s.o @= (s.i + s.r + s.kk) ^ INC
     @update_ff
     def ff(): s.r <<= s.i
 class Leaf2(Component):
